@@ -550,6 +550,73 @@ impl Registrations {
 #[derive(Debug, Eq, PartialEq)]
 struct CookieNamespaceMismatch;
 
+/// Verification hook: visibility shim over the private [`Registrations`] state machine.
+///
+/// Every method forwards to the method of the same name. `fire_expiry` pushes an
+/// already-completed future into the real `next_expiry` queue, so that the real
+/// [`Registrations::poll`] handles the expiry exactly as if the registration's timer had fired.
+#[cfg(libp2p_verif)]
+pub struct VerifRegistrations(Registrations);
+
+#[cfg(libp2p_verif)]
+impl VerifRegistrations {
+    pub fn new(config: Config) -> Self {
+        Self(Registrations::with_config(config))
+    }
+
+    /// Returns the internal id of the new registration (to be used with `fire_expiry`).
+    pub fn add(
+        &mut self,
+        namespace: Namespace,
+        record: libp2p_core::PeerRecord,
+        ttl: Option<Ttl>,
+    ) -> Result<(u64, Registration), ErrorCode> {
+        let key = (record.peer_id(), namespace.clone());
+        let registration = self.0.add(NewRegistration::new(namespace, record, ttl))?;
+        let id = self
+            .0
+            .registrations_for_peer
+            .get_by_left(&key)
+            .expect("registration was just added")
+            .0;
+        Ok((id, registration))
+    }
+
+    pub fn remove(&mut self, namespace: Namespace, peer_id: PeerId) {
+        self.0.remove(namespace, peer_id)
+    }
+
+    #[allow(clippy::result_unit_err)]
+    pub fn get(
+        &mut self,
+        namespace: Option<Namespace>,
+        cookie: Option<Cookie>,
+        limit: Option<u64>,
+    ) -> Result<(Vec<Registration>, Cookie), ()> {
+        match self.0.get(namespace, cookie, limit) {
+            Ok((registrations, cookie)) => Ok((registrations.cloned().collect(), cookie)),
+            Err(CookieNamespaceMismatch) => Err(()),
+        }
+    }
+
+    /// Let the expiry timer of the registration with the given internal id "fire" now.
+    pub fn fire_expiry(&mut self, id: u64) {
+        self.0
+            .next_expiry
+            .push(futures::future::ready(RegistrationId(id)).boxed());
+    }
+
+    /// Polls the real expiry queue once; `Some` for a reported `ExpiredRegistration`.
+    pub fn poll_expired(&mut self) -> Option<Registration> {
+        let mut cx = Context::from_waker(futures::task::noop_waker_ref());
+        match self.0.poll(&mut cx) {
+            Poll::Ready(ExpiredRegistration(registration)) => Some(registration),
+            Poll::Pending => None,
+        }
+    }
+}
+
+
 #[cfg(test)]
 mod tests {
     use libp2p_core::PeerRecord;
